@@ -82,7 +82,8 @@ type State struct {
 	subst   map[string]*Term
 	names   map[string]Value // source-level local names (from DebugRef)
 	cuts    map[string]bool
-	subMemo map[*Term]*Term
+	subMemo map[string]*Term
+	memoShared bool
 	entrySubst map[string]*Term // rewrite rules known at function entry (restored at a forgetting cut)
 	binds    map[string]int       // number of distinct values bound to a source-level name so far
 	lastBind map[string]ssa.Value
@@ -113,6 +114,11 @@ func (s *State) fork() *State {
 		n.cuts[k] = true
 	}
 	n.entrySubst = s.entrySubst
+	// the memo of rewritten terms is shared until one side learns a new rule
+	n.subMemo = s.subMemo
+	if s.subMemo != nil {
+		s.memoShared, n.memoShared = true, true
+	}
 	n.binds = make(map[string]int, len(s.binds))
 	for k, v := range s.binds {
 		n.binds[k] = v
@@ -228,16 +234,39 @@ func (s *State) assume(t *Term) {
 	}
 	s.hypKeys[k] = true
 	s.hyps = append(s.hyps, t)
-	// known conditions simplify later terms (ite conditions, guards)
+	// known (small) conditions simplify later terms (ite conditions, guards)
 	switch t.Op {
 	case "=", "<=", "app", "var":
-		s.addSubst(t, tTrue)
+		if smallCondition(t) {
+			s.addSubst(t, tTrue)
+		}
 	case "not":
 		switch t.Args[0].Op {
 		case "=", "<=", "app", "var":
-			s.addSubst(t.Args[0], tFalse)
+			if smallCondition(t.Args[0]) {
+				s.addSubst(t.Args[0], tFalse)
+			}
 		}
 	}
+}
+
+// smallCondition: a condition over at most three atoms (the kind that occurs as an ite condition).
+func smallCondition(t *Term) bool {
+	n := 0
+	ok := true
+	t.walk(func(u *Term) {
+		switch u.Op {
+		case "var", "select":
+			n++
+		case "app":
+			if len(u.Args) == 0 {
+				n++
+			}
+		case "ite":
+			ok = false
+		}
+	})
+	return ok && n <= 3
 }
 
 // sub applies the state's rewrite rules (memoised until the rule set changes).  Rules are resolved
@@ -247,7 +276,7 @@ func (s *State) sub(t *Term) *Term {
 		return t
 	}
 	if s.subMemo == nil {
-		s.subMemo = map[*Term]*Term{}
+		s.subMemo = map[string]*Term{}
 	}
 	r := substituteMemo(t, s.subst, s.subMemo)
 	for i := 0; i < 4 && r != t; i++ {
@@ -271,7 +300,18 @@ func (s *State) addSubst(lhs, rhs *Term) {
 			s.hyps = append(s.hyps, eq)
 		}
 	}
-	s.subMemo = nil
+	// memoised results stay valid unless the new left-hand side occurred in a term rewritten before
+	if _, seen := s.subMemo[lhs.Key()]; seen || s.subMemo == nil {
+		s.subMemo = nil
+		s.memoShared = false
+	} else if s.memoShared {
+		// private copy before this state's rule set diverges from its siblings'
+		m := make(map[string]*Term, len(s.subMemo))
+		for k, v := range s.subMemo {
+			m[k] = v
+		}
+		s.subMemo, s.memoShared = m, false
+	}
 	s.subst[lhs.Key()] = rhs
 }
 
